@@ -106,9 +106,21 @@ func observe(app *generator.App, g *graph.Instance) (s *snapshot, p *run.PanicIn
 				s.NodeMeta[id] = canon(ni.Metadata)
 			}
 		}
+		namesOf := map[string][]string{}
 		for _, name := range g.ProducerNames() {
 			pr := g.Producer(name)
-			s.Producers[name] = g.NodeId(pr.Node()) + ":" + pr.Port()
+			id := g.NodeId(pr.Node())
+			s.Producers[name] = id + ":" + pr.Port()
+			namesOf[id] = append(namesOf[id], name)
+		}
+		// A node published under several producer names (round 11, C12-P) has no single display name: Schema()
+		// reports whichever name the map iteration yields first, on the unchanged tree and within one instance.
+		// Its observed name is the sorted set of its producer names, which a reload must preserve.
+		for id, names := range namesOf {
+			if ns := s.Nodes[id]; ns != nil && len(names) >= 2 {
+				sort.Strings(names)
+				ns.Name = "<published as " + strings.Join(names, " | ") + ">"
+			}
 		}
 		s.Notes = canon(gs.Notes)
 		var as schema.App
